@@ -190,6 +190,8 @@ func vkey(v Value) (string, bool) {
 		return fmt.Sprintf("ch%d", x.ID), true
 	case Map:
 		return fmt.Sprintf("map%d", x.ID), true
+	case Opaque:
+		return "opq<" + x.Why + ">", true
 	case Struct:
 		s := "{"
 		for _, f := range x.F {
